@@ -106,12 +106,15 @@ fn compare_seed(seed: u64, l: &[Option<&Line>; 4]) -> Option<(String, String)> {
     for (a, b) in [(0usize, 1usize), (2, 3)] {
         if l[a].raw != l[b].raw {
             let field = l[a].fields.iter().find(|(k, v)| l[b].fields.get(*k) != Some(v)).map(|(k, _)| k.clone()).unwrap_or_default();
-            let what = if field.starts_with('c') || field.starts_with('n') || field.starts_with('t') || field.starts_with('r') { "compressed_frame" } else if field == "dec" { "decoded_stream_or_results" } else { "other" };
+            let what = if field.starts_with('c') || field.starts_with('n') || field.starts_with('t') || field.starts_with('r') { "compressed_frame" } else if field == "dec" || field == "hist" { "decoded_stream_or_results" } else { "other" };
             return Some((format!("C18/std_and_no_std_differ:{what}"), format!("seed {seed}: {} says [{}], {} says [{}]", names[a], l[a].raw, names[b], l[b].raw)));
         }
     }
     // hash vs no hash (std builds; the no_std ones equal them by the check above)
     let (h, n) = (l[0], l[2]);
+    if h.fields.get("hist") != n.fields.get("hist") {
+        return Some(("C18/hash_feature_changes_decoded_data:reused_decoder_history".into(), format!("seed {seed}: hist {} vs {}", h.fields.get("hist").cloned().unwrap_or_default(), n.fields.get("hist").cloned().unwrap_or_default())));
+    }
     if h.fields.get("dec") != n.fields.get("dec") {
         return Some(("C18/hash_feature_changes_decoded_data".into(), format!("seed {seed}: dec {} vs {}", h.fields.get("dec").cloned().unwrap_or_default(), n.fields.get("dec").cloned().unwrap_or_default())));
     }
